@@ -290,6 +290,7 @@ type world struct {
 	stale   bool // stale mode: allow continuing an OverIter on an object changed in place
 	nsteps  int
 	nops    int
+	byKind  map[string]int
 	// pending merge / save computed on an earlier state (as the merger / persist do)
 	pendMerge *ixbuf.T
 	pendN     int
@@ -298,7 +299,7 @@ type world struct {
 	structGen int
 }
 
-const nslot, nit, nib = 10, 6, 3
+const nslot, nit, nib = 10, 6, 4
 
 func (w *world) off() uint64 { w.nextOff++; return w.nextOff }
 
@@ -353,7 +354,7 @@ func cloneLive(m map[int]uint64) map[int]uint64 {
 }
 
 func newWorld(tr *vh.Trace, np, ns int, stale bool) *world {
-	w := &world{u: genUniverse(np, ns), tr: tr, stale: stale, nextOff: 1000}
+	w := &world{u: genUniverse(np, ns), tr: tr, stale: stale, nextOff: 1000, byKind: map[string]int{}}
 	btree.SetSplit([]int{2, 3, 4, 100}[rnd.Intn(4)])
 	w.st = stor.HeapStor(8192)
 	w.st.Alloc(64) // node offset 0 means "no node": real files have a header there
@@ -673,30 +674,30 @@ func (w *world) newIter() {
 	}
 }
 
-// buildIb builds a standalone ixbuf (possibly by merging several) and returns its id
+// buildIb builds a standalone ixbuf, directly or by ixbuf.Merge of the other ones
+// (built as consecutive layers: every key's entries form a valid change sequence),
+// and returns its id
 func (w *world) buildIb() int {
 	u := w.u
 	j := 1 + rnd.Intn(nib)
-	mk := func(id int, tombs bool) {
+	present := map[int]int{} // 0 unknown, 1 present, 2 absent
+	mk := func(id int) {
 		ib := &ixbuf.T{}
 		w.emit("IbNew", "ib", id)
 		n := rnd.Intn(u.K() + 1)
-		state := map[int]string{}
+		if rnd.Intn(3) == 0 {
+			n = rnd.Intn(2*u.K() + 1)
+		}
 		for i := 0; i < n; i++ {
 			k := 1 + rnd.Intn(u.K())
 			off := w.off()
 			var op string
-			switch state[k] { // keep every key's entry sequence valid for Combine
-			case "":
+			switch present[k] {
+			case 0:
 				op = []string{"add", "upd", "del"}[rnd.Intn(3)]
-				if !tombs {
-					op = "add"
-				}
-			case "add":
+			case 1:
 				op = []string{"upd", "del"}[rnd.Intn(2)]
-			case "upd":
-				op = []string{"upd", "del"}[rnd.Intn(2)]
-			case "del":
+			case 2:
 				op = "add"
 			}
 			switch op {
@@ -708,25 +709,29 @@ func (w *world) buildIb() int {
 				ib.Delete(u.keys[k], off)
 			}
 			w.emit("IbPut", "ib", id, "k", k, "op", op, "off", int(off))
-			// resulting entry kind (Combine)
-			switch {
-			case state[k] == "":
-				state[k] = op
-			case state[k] == "add" && op == "upd":
-				state[k] = "add"
-			case state[k] == "add" && op == "del":
-				delete(state, k)
-			case state[k] == "upd" && op == "upd":
-				state[k] = "upd"
-			case state[k] == "upd" && op == "del":
-				state[k] = "del"
-			case state[k] == "del" && op == "add":
-				state[k] = "upd"
+			if op == "del" {
+				present[k] = 2
+			} else {
+				present[k] = 1
 			}
 		}
 		w.ibs[id] = ib
 	}
-	mk(j, true)
+	if rnd.Intn(3) > 0 {
+		mk(j)
+		return j
+	}
+	var from []int
+	var ins []*ixbuf.T
+	for id := 1; id <= nib; id++ {
+		if id != j && (len(from) < 2 || rnd.Intn(2) == 0) {
+			mk(id)
+			from = append(from, id)
+			ins = append(ins, w.ibs[id])
+		}
+	}
+	w.ibs[j] = ixbuf.Merge(ins...)
+	w.emit("IbMerge", "ib", j, "from", from)
 	return j
 }
 
@@ -954,6 +959,10 @@ func (w *world) step(it *iter) {
 		w.emit("LStep", "it", it.id, "op", op, "x", x, "st", st, "k", k, "opn", opn, "off", off)
 	}
 	w.nsteps++
+	w.byKind[it.kind]++
+	if it.skip {
+		w.byKind["skipscan"]++
+	}
 }
 
 //-------------------------------------------------------------------
@@ -1081,16 +1090,29 @@ func main() {
 	nops, _ := strconv.Atoi(os.Args[3])
 	rnd = rand.New(rand.NewSource(vh.Seed()))
 	defer btree.SetSplit(100)
-	tr := vh.Create(filepath.Join(outdir, "overlay.ndjson"))
-	nsteps, totops := 0, 0
+	// main traces, in files of at most perFile scenarios (TLC reads a whole file at once)
+	const perFile = 250
+	nfiles, events, nsteps, totops := 0, 0, 0, 0
 	fams := map[int]int{}
+	kinds := map[string]int{}
+	var tr *vh.Trace
 	for s := 0; s < nscen; s++ {
-		if s > 0 {
+		if s%perFile == 0 {
+			if tr != nil {
+				events += tr.N
+				tr.Close()
+			}
+			nfiles++
+			tr = vh.Create(filepath.Join(outdir, fmt.Sprintf("overlay-%d.ndjson", nfiles)))
+		} else {
 			tr.Reset()
 		}
 		np, ns := 2+rnd.Intn(2), 2+rnd.Intn(3)
-		if s%5 == 4 {
+		switch {
+		case s%5 == 4:
 			np, ns = 4+rnd.Intn(3), 5+rnd.Intn(4) // enough keys for multi-chunk ixbufs
+		case vh.Thorough() && s%50 == 7:
+			np, ns = 8, 10
 		}
 		w := newWorld(tr, np, ns, false)
 		n := nops
@@ -1101,12 +1123,19 @@ func main() {
 		nsteps += w.nsteps
 		totops += w.nops
 		fams[w.u.fam]++
+		for k, v := range w.byKind {
+			kinds[k] += v
+		}
 	}
+	events += tr.N
 	tr.Close()
 	ts := vh.Create(filepath.Join(outdir, "stale.ndjson"))
 	nstale := nscen / 4
 	if nstale < 5 {
 		nstale = 5
+	}
+	if nstale > 100 {
+		nstale = 100
 	}
 	sst := 0
 	for s := 0; s < nstale; s++ {
@@ -1118,7 +1147,9 @@ func main() {
 		sst += w.nsteps
 	}
 	ts.Close()
-	vh.Summary("scenarios", nscen, "events", tr.N, "iterator_steps", nsteps, "ops", totops,
+	vh.Summary("scenarios", nscen, "files", nfiles, "events", events, "iterator_steps", nsteps, "ops", totops,
 		"stale_scenarios", nstale, "stale_events", ts.N, "stale_steps", sst,
-		"fam_plain", fams[0], "fam_nasty", fams[1], "fam_multi", fams[2], "fam_long", fams[3])
+		"fam_plain", fams[0], "fam_nasty", fams[1], "fam_multi", fams[2], "fam_long", fams[3],
+		"steps_over", kinds["over"], "steps_simple", kinds["simple"], "steps_bt", kinds["bt"],
+		"steps_layer", kinds["layer"], "steps_ib", kinds["ib"], "steps_skipscan", kinds["skipscan"])
 }
